@@ -981,6 +981,100 @@ func (g *gen) precompileInput(addr int) []byte {
 	return in
 }
 
+// ---- the deterministic arity family: every opcode byte x every stack height 0..minStack x every execution context
+
+var arityContexts = []string{"top", "static-entry", "staticcall-1", "staticcall-2", "delegatecall", "callcode", "create-top", "create-op"}
+
+// the tiny program: h pushes of 1, the opcode byte, and (for PUSHn) its data
+func arityProg(op byte, h int) []byte {
+	a := &asm{}
+	for i := 0; i < h; i++ {
+		a.pushU(1)
+	}
+	a.op(op)
+	if op >= 0x60 && op <= 0x7f {
+		for i := 0; i < int(op)-0x5f; i++ {
+			a.op(byte(i + 1))
+		}
+	}
+	return a.bytes()
+}
+
+// wrap the tiny program into the requested execution context
+func aritySpec(ctx string, cfg int, tiny []byte) spec {
+	call := func(kind byte, to common.Address) []byte {
+		a := &asm{}
+		a.pushU(0).pushU(0).pushU(0).pushU(0)
+		if kind == 0xf1 || kind == 0xf2 {
+			a.pushU(0)
+		}
+		a.pushB(to.Bytes()).op(0x5a).op(kind).op(0x5a)
+		a.storeTopAndReturn()
+		return a.bytes()
+	}
+	zero := big.NewInt(0)
+	switch ctx {
+	case "top":
+		return spec{kind: "C", cfg: cfg, gas: 3000000, value: zero, code: tiny, to: target}
+	case "static-entry":
+		return spec{kind: "S", cfg: cfg, gas: 3000000, value: zero, code: tiny, to: target}
+	case "staticcall-1":
+		return spec{kind: "C", cfg: cfg, gas: 3000000, value: zero, code: call(0xfa, auxAddr), aux: tiny, to: target}
+	case "staticcall-2": // target -STATICCALL-> aux -CALL-> aux2 (static inherited)
+		return spec{kind: "C", cfg: cfg, gas: 3000000, value: zero, code: call(0xfa, auxAddr), aux: call(0xf1, aux2Addr), aux2: tiny, to: target}
+	case "delegatecall":
+		return spec{kind: "C", cfg: cfg, gas: 3000000, value: zero, code: call(0xf4, auxAddr), aux: tiny, to: target}
+	case "callcode":
+		return spec{kind: "C", cfg: cfg, gas: 3000000, value: zero, code: call(0xf2, auxAddr), aux: tiny, to: target}
+	case "create-top":
+		return spec{kind: "K", cfg: cfg, gas: 3000000, value: zero, code: tiny}
+	default: // create-op: CREATE with the tiny program (passed as call data) as init code
+		a := &asm{}
+		a.op(0x36).pushU(0).pushU(0).op(0x37) // CALLDATACOPY(0,0,size)
+		a.op(0x36).pushU(0).pushU(0).op(0xf0).op(0x5a)
+		a.storeTopAndReturn()
+		return spec{kind: "C", cfg: cfg, gas: 3000000, value: zero, code: a.bytes(), input: tiny, to: target}
+	}
+}
+
+// consistent flag vectors for the 8 table configurations (table bits + the chain flags a height would give)
+func arityCfg(t int) int {
+	cfg := t & 7
+	if t&4 != 0 {
+		cfg |= 16
+	}
+	if t&1 != 0 {
+		cfg |= 8
+	}
+	return cfg | 32
+}
+
+// all = every table configuration for every program (thorough); otherwise one configuration per
+// program, rotating with the seed so that five seeds cover most of the product
+func arityFamily(all bool, seed uint64, visit func(ctx string, s spec)) {
+	setConfig(63)
+	full := vm.VerifC11Table(blockNumber)
+	for op := 0; op < 256; op++ {
+		delta := 0
+		if full[op].Defined {
+			delta = full[op].MinStack
+		}
+		for h := 0; h <= delta; h++ {
+			tiny := arityProg(byte(op), h)
+			for ci, ctx := range arityContexts {
+				if all {
+					for t := 0; t < 8; t++ {
+						visit(ctx, aritySpec(ctx, arityCfg(t), tiny))
+					}
+				} else {
+					t := (op + 3*h + 5*ci + int(seed%8)) % 8
+					visit(ctx, aritySpec(ctx, arityCfg(t), tiny))
+				}
+			}
+		}
+	}
+}
+
 // ---- corpus
 
 type spec struct {
@@ -1082,6 +1176,10 @@ func doSpec(out *hx.Out, s spec, stats map[string]int) string {
 		head, run := runCreate(s.cfg, s.gas, s.value, s.code, s.aux)
 		return emitRun(out, head, run, stats)
 	}
+	if s.kind == "S" {
+		head, run := runStatic(s.cfg, s.gas, s.to, s.code, s.input, s.aux)
+		return emitRun(out, head, run, stats)
+	}
 	head, run := runCall(s.cfg, s.gas, s.value, s.to, s.code, s.input, s.aux)
 	return emitRun(out, head, run, stats)
 }
@@ -1124,6 +1222,13 @@ func main() {
 		genKinds["corpus"]++
 	}
 
+	// deterministic small-scope family before anything random
+	if hx.ArgInt(a, "arity", 1) > 0 {
+		arityFamily(hx.ArgInt(a, "arity", 1) > 1, hx.SeedFromEnv(), func(ctx string, s spec) {
+			doSpec(out, s, stats)
+			genKinds["arity-"+ctx]++
+		})
+	}
 	n := hx.ArgInt(a, "n", 1500)
 	var kept []spec
 	for i := 0; i < n; i++ {
